@@ -129,13 +129,21 @@ func (s *Server) rejectPrivateAndLoopbackIPAction(_ context.Context, in egress.I
 			}
 		}
 	} else if len(ip) == 0 {
+		if req.Command != constant.Socks5ConnectCmd {
+			// Only CONNECT dials the destination of the request itself.
+			return egress.Action{
+				Action: appctlpb.EgressAction_DIRECT,
+			}
+		}
 		// An empty host is interpreted by the operating system as the local host.
 		ip = net.ParseIP("127.0.0.1")
 	}
 
 	// An unspecified address (0.0.0.0 or ::) is interpreted by the operating
-	// system as the local host.
-	isLoopback := ip.IsLoopback() || ip.IsUnspecified()
+	// system as the local host when it is dialed. A UDP ASSOCIATE request may
+	// legitimately carry an all-zero address (RFC 1928 section 6) and never
+	// dials it.
+	isLoopback := ip.IsLoopback() || (ip.IsUnspecified() && req.Command == constant.Socks5ConnectCmd)
 	if !ip.IsPrivate() && !isLoopback {
 		return egress.Action{
 			Action: appctlpb.EgressAction_DIRECT,
